@@ -56,6 +56,12 @@ static void fresh(int per) {
     for (int ai = 0; ai < 7; ai++) { Stream s(fmt("lwe/a%.3g", alphas[ai]), alphas[ai]);
         for (int q = 0; q < per; q++) { Torus32 mu = (Torus32)(q * 0x01234567u); lweSymEncrypt(c, mu, alphas[ai], k); s.err(lwePhase(c, k) - mu); for (int i = 0; i < 8; i++) s.mask((uint32_t)c->a[(q * 8 + i) % n]); s.maskvec(c->a, n); }
         s.end(); }
+    // noise levels closer to each other than 1e-9, and 0 right after a tiny one: the sampler has no memory of the level it was asked for last
+    // (a level far away first, so that the tiny one is really the level asked for last; then levels 1.5x apart, each measured on its own)
+    { double close[10] = {ldexp(1., -20), ldexp(1., -31), 0.0, ldexp(1., -20), ldexp(1., -30), ldexp(1., -31), 0.0, ldexp(1., -15), 1.5 * ldexp(1., -15), ldexp(1., -15)};
+      for (int ci = 0; ci < 10; ci++) { Stream s(fmt("lwe/close-a%.3g/%d", close[ci], ci), close[ci]);
+        for (int q = 0; q < per; q++) { Torus32 mu = (Torus32)(q * 0x02468acfu); lweSymEncrypt(c, mu, close[ci], k); s.err(lwePhase(c, k) - mu); for (int i = 0; i < 8; i++) s.mask((uint32_t)c->a[(q * 8 + i) % n]); s.maskvec(c->a, n); }
+        s.end(); } }
     // other dimensions, odd ones and 1 included: every coordinate of every mask is fresh, the noise level does not depend on the dimension
     { int dims[5] = {1, 7, 64, 501, 631};
       for (int di = 0; di < 5; di++) { int nn = dims[di]; LweParams* lp2 = new_LweParams(nn, 0, 1); LweKey* k2 = new_LweKey(lp2); lweKeyGen(k2); LweSample* c2 = new_LweSample(lp2); double al = ldexp(1., -15 - di);
